@@ -53,6 +53,11 @@ def _force_rmtree(path: str):
         except Exception:
             pass
 
+    try:
+        shutil.rmtree(path)
+        return
+    except OSError:
+        pass
     for dp, dns, fns in os.walk(path):
         try:
             os.chmod(dp, 0o700)
